@@ -172,6 +172,14 @@ ViewsFails(r) ==
          Cl(\A k \in DOMAIN vs : Idx(vs[k][4]) # {} /\ Whole(vs[k][4]), "ReaderSeesCommittedStatesOnly")
          \cup Cl(\A j, k \in DOMAIN vs : (j < k /\ Idx(vs[j][4]) # {} /\ Idx(vs[k][4]) # {}) =>
                     MinOf(Idx(vs[j][4])) <= MinOf(Idx(vs[k][4])), "ReaderSeesCommitsInOrder")
+  ELSE IF r.op[1] = "addcoll"
+  \* a collection is several resources, each committed by itself: a reader may see the state
+  \* after any number of whole packages, never a part of one
+  THEN Cl(\A k \in DOMAIN vs : vs[k][4].dangling = <<>> /\
+                \E s \in CollPrefixes(st, r.op[2]) : s.inst = vs[k][4].inst,
+          "ReaderSeesCommittedStatesOnly")
+       \cup Cl(\A j, k \in DOMAIN vs : j < k => Len(vs[j][4].inst) <= Len(vs[k][4].inst),
+               "ReaderSeesCommitsInOrder")
   ELSE Cl(\A k \in DOMAIN vs : SameView(vs[k][4], r.pre) \/ SameView(vs[k][4], r.post),
           "ReaderSeesCommittedStatesOnly")
        \cup Cl(\A j, k \in DOMAIN vs : (j < k /\ SameView(vs[j][4], r.post)) => SameView(vs[k][4], r.post),
